@@ -48,6 +48,15 @@ def carrier(tier, n):
     """Predefined spaces plus the directional spaces with n directions (spaces with different numbers of
     directions live on domains of different dimension and are not meant to be compared)."""
     orders = (0, 1, 2, inf) if tier != "thorough" else (0, 1, 2, 3, inf)
+    if isinstance(n, tuple):
+        # directional spaces with different numbers of directions side by side (they are incomparable; the predefined
+        # isotropic spaces are left out because each of them equals one space of every dimension)
+        C, N = [], []
+        for m in n:
+            for o in itertools.product((0, 1, 2), repeat=m):
+                C.append(DirectionalSobolevSpace(o))
+                N.append("Dir" + str(tuple(o)))
+        return C, N
     C, N = list(PRE), [s.name for s in PRE]
     vals = orders if n < 3 else (0, 1, 2, inf)
     for o in itertools.product(vals, repeat=n):
@@ -66,8 +75,9 @@ def run(spec):
     T.relation("eq", lambda a, b: a == b)
     T.relation("ne", lambda a, b: a != b)
     T.relation("mem", lambda a, b: Elem(a) in b)
-    npre = len(PRE)
-    truth = [f"(and (= i {i}) (= j {j}))" for i, a in enumerate(PRE) for j, b in enumerate(PRE) if b.name in ancestors(a.name)]
+    npre = len(PRE) if not isinstance(spec["n"], tuple) else 0
+    truth = [f"(and (= i {i}) (= j {j}))" for i, a in enumerate(PRE) for j, b in enumerate(PRE) if b.name in ancestors(a.name)] \
+        if npre else []
     extra = f"(define-fun sub ((i Int) (j Int)) Bool (or false {' '.join(truth)}))\n"
     ok2 = "(not (or (lt_err a b) (lt_err b a) (gt_err a b) (gt_err b a) (le_err a b) (ge_err a b) (eq_err a b)))"
     ok3 = "(not (or (lt_err a b) (lt_err b c) (lt_err a c) (eq_err a b) (eq_err b c) (eq_err a c) (lt_err c a) (lt_err c b)))"
@@ -111,7 +121,7 @@ def run(spec):
 def main():
     tier = harness.tier_from_argv()
     t0 = time.time()
-    ns = (1, 2) if tier != "thorough" else (1, 2, 3)
+    ns = (1, 2, (1, 2), (2, 3)) if tier != "thorough" else (1, 2, 3, (1, 2), (2, 3), (1, 2, 3))
     results = harness.run_pool("checks.C25", "run", [dict(name=f"tables{n}", tier=tier, n=n) for n in ns])
     calls = sum(r.get("table_calls", 0) for r in results)
     names = sorted({x for r in results for x in r.get("carrier", [])})
